@@ -288,6 +288,109 @@ theorem parserStep_repaired_local (g g' : String → Brace) (l : PLoc) (h : g ta
   | nil => rfl
   | cons op rest => cases op <;> simp [h]
 
+/-! ## C13 — instance ids from a shared counter -/
+
+structure ILoc where
+  todo : Nat                  -- runtime components this parse still has to create
+  tmp  : Option Nat := none   -- non-atomic variant: the counter value read by `counter++`
+  ids  : List Nat := []       -- instance ids of the components created so far
+  deriving DecidableEq, Repr, Inhabited
+
+def counterCell : String := "instanceCounter"
+
+/-- One step of a parse creating runtime components. `atomic = true`: `atomic.AddUint64` — the
+    counter is incremented and the new value taken in one step. `atomic = false`: `counter++`
+    followed by a read — a read step and a write step. -/
+def idStep (atomic : Bool) (g : String → Nat) (l : ILoc) : (String → Nat) × ILoc :=
+  if l.todo = 0 then (g, l)
+  else if atomic then
+    (fun x => if x = counterCell then g counterCell + 1 else g x,
+     { l with todo := l.todo - 1, ids := (g counterCell + 1) :: l.ids })
+  else
+    match l.tmp with
+    | none => (g, { l with tmp := some (g counterCell) })
+    | some v =>
+      (fun x => if x = counterCell then v + 1 else g x,
+       { l with todo := l.todo - 1, tmp := none, ids := (v + 1) :: l.ids })
+
+def idSys (atomic : Bool) : Sys String Nat ILoc := ⟨fun _ => idStep atomic⟩
+
+/-- all ids handed out so far are at most the counter, every thread's ids are distinct, and
+    different threads hold disjoint ids -/
+def IdsInv (s : State String Nat ILoc) : Prop :=
+  (∀ t a, a ∈ (s.locals t).ids → a ≤ s.shared counterCell) ∧
+  (∀ t, (s.locals t).ids.Nodup) ∧
+  (∀ t t' a, t ≠ t' → a ∈ (s.locals t).ids → a ∉ (s.locals t').ids)
+
+theorem idsInv_step (s : State String Nat ILoc) (u : Nat) (h : IdsInv s) :
+    IdsInv (run (idSys true) s [u]) := by
+  obtain ⟨hb, hn, hd⟩ := h
+  simp only [run, idSys, idStep]
+  by_cases h0 : (s.locals u).todo = 0
+  · simp only [h0, if_true]
+    refine ⟨?_, ?_, ?_⟩
+    · intro t a ha
+      by_cases htu : t = u
+      · subst htu; simp only [setLocal, if_true] at ha; exact hb t a ha
+      · simp only [setLocal, if_neg htu] at ha; exact hb t a ha
+    · intro t
+      by_cases htu : t = u
+      · subst htu; simp only [setLocal, if_true]; exact hn t
+      · simp only [setLocal, if_neg htu]; exact hn t
+    · intro t t' a htt ha
+      have e : ∀ x, (setLocal s.locals u (s.locals u) x) = s.locals x := by
+        intro x; by_cases hx : x = u
+        · subst hx; simp [setLocal]
+        · simp [setLocal, hx]
+      simp only [e] at ha ⊢
+      exact hd t t' a htt ha
+  · simp only [h0, if_false, if_true]
+    refine ⟨?_, ?_, ?_⟩
+    · intro t a ha
+      simp only [if_true]
+      by_cases htu : t = u
+      · subst htu
+        simp only [setLocal, if_true, List.mem_cons] at ha
+        rcases ha with rfl | ha
+        · exact Nat.le_refl _
+        · exact Nat.le_succ_of_le (hb t a ha)
+      · simp only [setLocal, if_neg htu] at ha
+        exact Nat.le_succ_of_le (hb t a ha)
+    · intro t
+      by_cases htu : t = u
+      · subst htu
+        simp only [setLocal, if_true, List.nodup_cons]
+        refine ⟨fun hm => ?_, hn t⟩
+        have := hb t _ hm
+        omega
+      · simp only [setLocal, if_neg htu]; exact hn t
+    · intro t t' a htt ha
+      by_cases htu : t = u
+      · subst htu
+        have ht' : ¬ t' = t := fun e => htt e.symm
+        simp only [setLocal, if_true, List.mem_cons] at ha
+        simp only [setLocal, if_neg ht']
+        rcases ha with rfl | ha
+        · intro hm; have := hb t' _ hm; omega
+        · exact hd t t' a htt ha
+      · simp only [setLocal, if_neg htu] at ha
+        by_cases ht'u : t' = u
+        · subst ht'u
+          simp only [setLocal, if_true, List.mem_cons, not_or]
+          refine ⟨fun e => ?_, hd t t' a htt ha⟩
+          have := hb t a ha
+          omega
+        · simp only [setLocal, if_neg ht'u]
+          exact hd t t' a htt ha
+
+theorem idsInv_run (sched : List Nat) : ∀ s, IdsInv s → IdsInv (run (idSys true) s sched) := by
+  induction sched with
+  | nil => intro s h; simpa [run] using h
+  | cons u sched ih =>
+    intro s h
+    have := ih _ (idsInv_step s u h)
+    simpa [run] using this
+
 /-! ## C11 — the action closure of a sink -/
 
 /-- what an invocation does is a function of its own event: `none` = success,
@@ -369,6 +472,89 @@ theorem alone_never_wrong (outcome : Nat → Option Nat) (t n ev : Nat) (g : Str
   | 1 => simp [alone, sinkSys, sinkStep, fresh]
   | 2 => simp [alone, sinkSys, sinkStep, fresh]
   | n + 3 => rw [alone_fresh]; simp
+
+/-! ## C11 — where the invocation scope stores `event` -/
+
+/-- Does a scope set-up sequence (constructor, stores, parent link, evaluation — in source
+    order) keep every store in the fresh scope? `SetValue` resolves the name through the parent
+    chain, so it is local only while the scope has no parent; `SetLocalValue` is always local.
+    `linked` = the scope has (or may have) a parent. -/
+def storesLocal : Bool → List (String × String) → Bool
+  | _, [] => true
+  | linked, (op, _) :: rest =>
+    if op = "NewScope" then storesLocal false rest
+    else if op = "NewScopeWithParent" || op = "NewChild" || op = "SetParentOfScope" then storesLocal true rest
+    else if op = "SetValue" then !linked && storesLocal linked rest
+    else storesLocal linked rest
+
+/-- the set-up keeps its stores local and does store each of the `required` names -/
+def setupKeepsLocal (setup : List (String × String)) (required : List String) : Bool :=
+  storesLocal true setup &&
+  required.all fun n => setup.any fun c => (c.1 = "SetValue" || c.1 = "SetLocalValue") && c.2 = n
+
+structure ELoc where
+  event : Nat                    -- the event this invocation was started for
+  pc    : Nat := 0
+  own   : Option Nat := none     -- the variable `event` of the invocation scope
+  read1 : Option Nat := none     -- `event` as read by the statements, twice
+  read2 : Option Nat := none
+  deriving DecidableEq, Repr, Inhabited
+
+/-- the variable named `event` of the DECLARING scope (`none` = the program defines none) -/
+def eventCell : String := "event"
+
+/-- One step of an invocation. pc 0: store `event` — with `parentFirst` (the scope already has
+    its parent) the store goes to the declaring scope's variable if there is one, otherwise a
+    local variable is created. pc 1, 2: the statements read `event` (own scope first, then the
+    parent chain). -/
+def scopeStep (parentFirst : Bool) (g : String → Option Nat) (l : ELoc) : (String → Option Nat) × ELoc :=
+  if l.pc = 0 then
+    if parentFirst && (g eventCell).isSome then
+      (fun x => if x = eventCell then some l.event else g x, { l with pc := 1 })
+    else (g, { l with pc := 1, own := some l.event })
+  else if l.pc = 1 then (g, { l with pc := 2, read1 := l.own <|> g eventCell })
+  else if l.pc = 2 then (g, { l with pc := 3, read2 := l.own <|> g eventCell })
+  else (g, l)
+
+def scopeSys (parentFirst : Bool) : Sys String (Option Nat) ELoc := ⟨fun _ => scopeStep parentFirst⟩
+
+theorem scopeSys_local_readonly : WritesWithin (scopeSys false) (fun _ => False) := by
+  intro t g l x _
+  simp only [scopeSys, scopeStep]
+  split
+  · simp
+  · split
+    · rfl
+    · split <;> rfl
+
+theorem scope_alone_done (pf : Bool) (t n : Nat) (g : String → Option Nat) (l : ELoc) (h : l.pc ≥ 3) :
+    alone (scopeSys pf) t n g l = (g, l) := by
+  induction n with
+  | zero => rfl
+  | succ n ih =>
+    have h0 : ¬ l.pc = 0 := by omega
+    have h1 : ¬ l.pc = 1 := by omega
+    have h2 : ¬ l.pc = 2 := by omega
+    simp only [alone, scopeSys, scopeStep, h0, h1, h2, if_false]
+    exact ih
+
+theorem scope_alone_fresh (t n ev : Nat) (g : String → Option Nat) :
+    (alone (scopeSys false) t (n + 3) g { event := ev }).2
+      = { event := ev, pc := 3, own := some ev, read1 := some ev, read2 := some ev } := by
+  have : alone (scopeSys false) t (n + 3) g { event := ev }
+      = alone (scopeSys false) t n g
+          { event := ev, pc := 3, own := some ev, read1 := some ev, read2 := some ev } := by
+    simp [alone, scopeSys, scopeStep]
+  rw [this, scope_alone_done _ _ _ _ _ (by simp)]
+
+theorem scope_alone_never_wrong (t n ev : Nat) (g : String → Option Nat) :
+    let l := (alone (scopeSys false) t n g { event := ev }).2
+    (l.read1 = none ∨ l.read1 = some ev) ∧ (l.read2 = none ∨ l.read2 = some ev) := by
+  match n with
+  | 0 => simp [alone]
+  | 1 => simp [alone, scopeSys, scopeStep]
+  | 2 => simp [alone, scopeSys, scopeStep]
+  | n + 3 => rw [scope_alone_fresh]; simp
 
 /-! ## An explicitly shared, lock-protected global (example system) -/
 
